@@ -207,10 +207,7 @@ impl IntoLower for ast::Identifier {
                 }
             }
             ast::Symbol::Output(index) => Ok(ir::Expression::Number(*index as i128)),
-            _ => {
-                dbg!(&self);
-                todo!();
-            }
+            _ => Err(Error::InvalidSymbol(self.value.clone(), "value")),
         }
     }
 }
